@@ -96,19 +96,25 @@ Definition uri_raw_query_items (s : bytes) : list bytes :=
   uri_split_on uri_query_sep (uri_upto uri_query_stop s).
 
 (* Uri-Path values of the path [s] (without its leading "/"): None = malformed escape *)
+(* a value longer than 269 + 65535 bytes cannot be carried by any option *)
+Definition uri_fits (ds : list bytes) : bool := forallb (fun d => len d <=? 65804) ds.
+
 Definition uri_spec_path (s : bytes) : option (list bytes) :=
   match uri_decode_all (uri_raw_path_segs s) with
-  | Some ds => Some (rev (uri_resolve ds []))
+  | Some ds => if uri_fits ds then Some (rev (uri_resolve ds [])) else None
   | None => None
   end.
 Definition uri_rfc_path (s : bytes) : option (list bytes) :=
   match uri_decode_all (uri_raw_path_segs s) with
-  | Some ds => Some (rev (uri_rfc_resolve ds []))
+  | Some ds => if uri_fits ds then Some (rev (uri_rfc_resolve ds [])) else None
   | None => None
   end.
 (* Uri-Query values *)
 Definition uri_spec_query (s : bytes) : option (list bytes) :=
-  uri_decode_all (uri_raw_query_items s).
+  match uri_decode_all (uri_raw_query_items s) with
+  | Some ds => if uri_fits ds then Some ds else None
+  | None => None
+  end.
 
 (* the options as they lie in the output buffer: delta 0, length, value *)
 Definition uri_encs (l : list bytes) : list bytes := map (opt_enc 0) l.
